@@ -240,19 +240,20 @@ Section WithParams.
                 let s1 := update_root s oid (Some (e_val e)) in
                 (fin (write_disk s1 f (data_of s1 oid)), None)
           | Shm =>
-              let fin (s0 : bstate) :=
+              (* the stored metadata is refreshed only when this flush wrote the file *)
+              let fin (wrote : bool) (s0 : bstate) :=
                 let s1 := if e_mod e then upd_size s0 (b_size s0 - 1) else s0 in
                 if force
                 then set_entry s1 f {| e_val := e_val e; e_loc := e_loc e; e_hash := e_hash e;
-                                       e_meta := stamp s1 f; e_mod := false |}
+                                       e_meta := if wrote then stamp s1 f else e_meta e; e_mod := false |}
                 else del_entry s1 f in
               if e_mod e then
-                if negb (opt_nat_eqb (e_meta e) (stamp s f)) then (fin s, Some (XMeta f))
+                if negb (opt_nat_eqb (e_meta e) (stamp s f)) then (fin false s, Some (XMeta f))
                 else
                   (* the object is pointed at the entry's container, which is what gets written *)
                   let s1 := set_loc s oid (e_loc e) in
-                  (fin (write_disk s1 f (data_of s1 oid)), None)
-              else (fin s, None)
+                  (fin true (write_disk s1 f (data_of s1 oid)), None)
+              else (fin false s, None)
           end
       end
     else
